@@ -206,9 +206,56 @@ class Ctx(object):
 # the case
 
 def run_case(desc):
+    sd, fd = desc['space'], desc['func']
+    space = Z.build_space(sd)
+    try:
+        B = Z.build_func(space, sd, fd)
+    except Z.Rejected as e:
+        return Outcome('rejected', strata=['rejected:' + str(e)[:30]])
+    n = B.geo.n
+    xraw = np.asarray(desc['x'], float) * desc['xscale']
+    yraw = np.asarray(desc['y'], float) * desc['yscale']
+    zraw = np.asarray(desc['z'], float)
+    pts = (xraw, yraw, zraw, float(desc['sigma']))
+    # children first (post-order): the innermost failing node names the
+    # root cause
+    out = None
+    for node, npts in _post_order(B, pts):
+        top = node is B
+        res = _guarded(node, npts, top, fd if top else {})
+        if top:
+            out = res
+    return out
+
+
+def _post_order(B, pts):
+    x, y, z, sigma = pts
+    if B.cls == 'sepsum':
+        off = 0
+        for k in B.children:
+            m = k.geo.n
+            for item in _post_order(k, (x[off:off + m], y[off:off + m],
+                                        z[off:off + m], sigma)):
+                yield item
+            off += m
+    elif B.cls == 'sepsum_power':
+        k = B.children[0]
+        m = k.geo.n
+        for item in _post_order(k, (x[:m], y[:m], z[:m], sigma)):
+            yield item
+    elif B.cls == 'comp':
+        pass
+    else:
+        for k in B.children:
+            for item in _post_order(k, pts):
+                yield item
+    yield B, pts
+
+
+def _guarded(B, pts, top, fd):
     ctx = {}
     try:
-        return _run_case(desc, ctx)
+        return _check_node(B, pts, top, fd, ctx)
     except (Violation, HarnessError):
         raise
     except Exception as e:  # noqa
@@ -223,30 +270,23 @@ def run_case(desc):
             ctx['who'], ctx['region'], csig.split('|', 2)[2]), tb[-1200:])
 
 
-def _run_case(desc, ctx):
-    sd, fd = desc['space'], desc['func']
-    space = Z.build_space(sd)
-    try:
-        B = Z.build_func(space, sd, fd)
-    except Z.Rejected as e:
-        return Outcome('rejected', strata=['rejected:' + str(e)[:30]])
+def _check_node(B, pts, top, fd, ctx):
+    sd, space = B.sd, B.space
+    xraw, yraw, zraw, sigma = pts
     f, ref, geo = B.f, B.ref, B.geo
     n = geo.n
     eps = Z.space_eps(space)
     f32 = eps > 1e-10
     sk = Z.space_kind(sd)
     wk = Z.wkind(geo.w)
-    wt = Z.wtype(sd)
-    classes = Z.classes_in(fd)
-    leafcls = sorted(set(b.cls for b in B.leaves()))
-    region = 'w=' + wt
+    classes = Z.classes_in(fd) if top else [B.cls]
+    region = 'w=' + Z.wcoarse(sd)
     rs = B.region_str()
     if rs:
         region += ',' + rs
     if f32:
         region += ',f32'
-    root = type(f).__name__
-    who = '{}({})'.format(root, '+'.join(leafcls)) if B.children else root
+    who = type(f).__name__
 
     ctx['who'], ctx['region'] = who, region
 
@@ -306,10 +346,6 @@ def _run_case(desc, ctx):
 
     def X(v):
         return Z.elem(space, v)
-
-    xraw = np.asarray(desc['x'], float) * desc['xscale']
-    yraw = np.asarray(desc['y'], float) * desc['yscale']
-    zraw = np.asarray(desc['z'], float)
 
     f_eval = B.cls != 'infconv' and _evaluable(f, X(xraw)[0])
     default_conj = isinstance(fc, FunctionalDefaultConvexConjugate)
@@ -392,6 +428,15 @@ def _run_case(desc, ctx):
         finite_hits[0] += 1
         t = K_TOL * eps * max(n, 1) * (
             1.0 + abs(rv) + float(np.sum(geo.w * (np.abs(yf) + yf * yf))))
+        # conditioning: the conjugate may be steep next to the boundary of
+        # its domain; allow what an input perturbation of a few ulp does to
+        # the reference
+        dy = 32 * eps * (np.abs(yf) + 1.0)
+        r1, r2 = ref.conj(yf + dy), ref.conj(yf - dy)
+        if not (np.isfinite(r1) and np.isfinite(r2)):
+            note('boundary_skipped')
+            return
+        t += 4 * (abs(r1 - rv) + abs(r2 - rv))
         if abs(lv - rv) > t:
             raise Violation(
                 sig(clause),
@@ -554,7 +599,7 @@ def _run_case(desc, ctx):
             grad = f.gradient
         except NotImplementedError:
             pass
-        if grad is not None and not _huber_grad_known(B):
+        if grad is not None:
             for xe, xf in Xs:
                 dr = ref.dom_residual(xf)
                 if dr is not None and dr >= 0:
@@ -563,8 +608,10 @@ def _run_case(desc, ctx):
                     continue
                 try:
                     ye = grad(xe)
-                except (NotImplementedError, ZeroDivisionError,
-                        ValueError):
+                except Exception:  # noqa
+                    # gradients are C09's business; here the library
+                    # gradient is only a source of sub-gradients
+                    note('libgrad_failed')
                     break
                 yf = flat.flat(ye, space)
                 if not np.all(np.isfinite(yf)):
@@ -610,8 +657,8 @@ def _run_case(desc, ctx):
                         '{:.3g}); x={}'.format(a, b, a - b, t, xf.tolist()))
 
     # ---- (5) numerical sup oracle -------------------------------------------
-    if f_eval and c_eval and ref is not None and ref.smooth and n <= 3 and \
-            not ref.thin_conj_dom and not f32 and sk != 'field':
+    if top and f_eval and c_eval and ref is not None and ref.smooth and \
+            n <= 3 and not ref.thin_conj_dom and not f32 and sk != 'field':
         ye, yf = Ys[-1]
         rv = ref.conj(yf)
         start = xs[1] if len(xs) > 2 else xs[0]
@@ -631,7 +678,6 @@ def _run_case(desc, ctx):
                 note('sup_unconverged')
 
     # ---- (6) Moreau decomposition -------------------------------------------
-    sigma = float(desc['sigma'])
     pf = pc = None
     try:
         pf = f.proximal
